@@ -115,4 +115,4 @@ def r_readonly(ctx):
 @rule("C17", "R5", "FLOW", "the cluster mean used by the index is the float mean of the cluster's own windows")
 def r5(ctx):
     from . import c12
-    ctx.sub(c12.r1)
+    ctx.sub(c12.r1, only=("receiver:stacked_data_mean", "mean:rows", "return"))
